@@ -332,6 +332,15 @@ func (f *FuncVC) loopHead(fr *frame, li *loopInfo, entry *State) *State {
 			}
 		}
 	}
+	li.freshWr = map[string]string{}
+	fw := map[string]*Clause{}
+	if spec != nil {
+		for _, c := range spec.FreshWr {
+			for _, k := range strings.FieldsFunc(c.Text, func(r rune) bool { return r == ',' || r == ' ' }) {
+				fw[k] = c
+			}
+		}
+	}
 	if epochChanged {
 		// the body contains a total havoc: everything is unknown at the head
 		f.havocAll(st)
@@ -345,6 +354,22 @@ func (f *FuncVC) loopHead(fr *frame, li *loopInfo, entry *State) *State {
 			} else {
 				f.staleClause(c, fmt.Errorf("unknown heap component %s", k))
 			}
+			continue
+		}
+		if c := fw[k]; c != nil {
+			// `loop K freshwrites k`: arrays that existed at function entry keep their contents; every latch proves it
+			srt := f.hsort[k]
+			if srt == "" || !strings.HasPrefix(k, "E.") {
+				f.staleClause(c, fmt.Errorf("freshwrites needs an element heap E.<sort>, got %s", k))
+				f.havocHeapKey(st, k)
+				continue
+			}
+			prev := f.heapGet(st, k, srt)
+			al0 := f.heapGet(f.entryState, "alloc", "(Array Int Bool)")
+			f.havocHeapKey(st, k)
+			cur := f.heapGet(st, k, srt)
+			f.assume("(forall ((a Int)) (! (=> (select " + al0 + " a) (= (select " + cur + " a) (select " + prev + " a))) :pattern ((select " + cur + " a))))")
+			li.freshWr[k] = cur
 			continue
 		}
 		f.havocHeapKey(st, k)
@@ -423,6 +448,21 @@ func (f *FuncVC) loopLatch(fr *frame, li *loopInfo, latch *ssa.BasicBlock, st *S
 			continue
 		}
 		o := f.oblig(label+".preserves", es, "(= "+cur+" "+li.preserved[k]+")", li.pos, "loop body leaves heap component "+k+" unchanged (every store to it is unreachable)")
+		o.Pos = f.G.P.posStr(li.pos)
+	}
+	var fk []string
+	for k := range li.freshWr {
+		fk = append(fk, k)
+	}
+	sort.Strings(fk)
+	for _, k := range fk {
+		cur := f.heapGet(es, k, f.hsort[k])
+		if cur == li.freshWr[k] {
+			continue
+		}
+		al0 := f.heapGet(f.entryState, "alloc", "(Array Int Bool)")
+		a := f.freshConst("sk.arr", "Int")
+		o := f.oblig(label+".freshwrites", es, "(=> (select "+al0+" "+a+") (= (select "+cur+" "+a+") (select "+li.freshWr[k]+" "+a+")))", li.pos, "loop body writes heap component "+k+" only in arrays allocated since function entry")
 		o.Pos = f.G.P.posStr(li.pos)
 	}
 	if spec.Decreases != nil && li.variantHead != "" {
